@@ -823,8 +823,11 @@ def rw_unwrap_or_else(fi, args, spec=None):
 
 
 def rw_mapcollect(fi, args, spec=None):
-    """R-MAPCOLLECT: `X.iter().map(|a| E).collect::<Vec<_>>()` -> index loop pushing E for every element
-    of X in order. The loop's invariant comes from the unit (`at mapcollect K spec`)."""
+    """R-MAPCOLLECT [pat] [via=M] [into]: `X.iter().map(|a| E).collect::<Vec<_>>()` -> index loop pushing E for every element
+    of X in order. The loop's invariant comes from the unit (`at mapcollect K spec`). `pat`: the closure parameter may be
+    a tuple pattern (bound with `let PAT = &src[k]`); `via=M`: the elements are read through the stub accessor `X.M()`
+    (a collection stub has no slice view of its own); `into`: the target of `collect()` is not a Vec - the vector built
+    by the loop is handed to `vc_collect_vec` (see R-INTOCOLLECT)."""
     toks = fi.toks
     src = fi.sf.src
     edits = []
@@ -834,11 +837,19 @@ def rw_mapcollect(fi, args, spec=None):
         if is_p(toks[i], '.') and is_id(toks[i + 1], 'iter') and is_p(toks[i + 2], '(') and is_p(toks[i + 3], ')') \
                 and is_p(toks[i + 4], '.') and is_id(toks[i + 5], 'map') and is_p(toks[i + 6], '(') and is_p(toks[i + 7], '|'):
             k = match_close(toks, i + 6)
-            # closure param: single identifier
-            if not (toks[i + 8].kind == 'id' and is_p(toks[i + 9], '|')):
+            # closure param: single identifier, or (with the `pat` argument) a tuple pattern of identifiers
+            b2 = i + 8
+            while not is_p(toks[b2], '|'):
+                if toks[b2].kind == 'punct' and toks[b2].text in ('(', '['):
+                    b2 = match_close(toks, b2)
+                b2 += 1
+            if not ((b2 == i + 9 and toks[i + 8].kind == 'id') or 'pat' in args):
                 raise LostAnchor(f'fn {fi.item.name}: R-MAPCOLLECT needs a single-variable closure')
-            var = toks[i + 8].text
-            body = src[toks[i + 10].start:toks[k].start]
+            var = src[toks[i + 8].start:toks[b2].start].strip()
+            if spec is not None:
+                for rule2, args2 in spec.rewrites:
+                    if rule2 == 'R-RENAME':
+                        var = re.sub(r'\b' + re.escape(args2[0]) + r'\b', args2[1], var)
             # after `)`: .collect::<Vec<_>>()
             j = k + 1
             if not (is_p(toks[j], '.') and is_id(toks[j + 1], 'collect')):
@@ -854,6 +865,7 @@ def rw_mapcollect(fi, args, spec=None):
             if toks[r].kind != 'id':
                 raise LostAnchor(f'fn {fi.item.name}: R-MAPCOLLECT cannot delimit the receiver')
             inv = ''
+            after = ''
             bend = ''
             bstart = ''
             if spec is not None:
@@ -864,10 +876,16 @@ def rw_mapcollect(fi, args, spec=None):
                         bend = text
                     if anchor == f'mapcollect {n} body-start':
                         bstart = text
+                    if anchor == f'mapcollect {n} after-collect':
+                        after = text
+            via = ''.join('.' + a[4:] + '()' for a in args if a.startswith('via='))
+            into = 'vc_collect_vec(' if 'into' in args else ''
+            rty = ''.join(': ' + a[4:] for a in args if a.startswith('rty='))
+            vty = ''.join(': Vec<' + a[3:] + '>' for a in args if a.startswith('ty='))
             edits.append((toks[r].start, toks[r].start, f'{{ let __src{n} = ', 'R-MAPCOLLECT'))
-            edits.append((toks[i].start, toks[i + 9].end,
-                          f'; let mut __v{n} = Vec::new(); let mut __k{n}: usize = 0;\n#[verifier::loop_isolation(false)]\nwhile __k{n} < __src{n}.len()\n{inv}\n{{ let {var} = &__src{n}[__k{n}];\n{bstart}\nlet __e{n} = ', 'R-MAPCOLLECT'))
-            edits.append((toks[k].start, toks[end].end, f'; __v{n}.push(__e{n}); __k{n} += 1;\n{bend}\n}} __v{n} }}', 'R-MAPCOLLECT'))
+            edits.append((toks[i].start, toks[b2].end,
+                          f'{via}; let mut __v{n}{vty} = Vec::new(); let mut __k{n}: usize = 0;\n#[verifier::loop_isolation(false)]\nwhile __k{n} < __src{n}.len()\n{inv}\n{{ let {var} = &__src{n}[__k{n}];\n{bstart}\nlet __e{n} = ', 'R-MAPCOLLECT'))
+            edits.append((toks[k].start, toks[end].end, f'; __v{n}.push(__e{n}); __k{n} += 1;\n{bend}\n}} let __r{n}{rty} = {into}__v{n}{")" if into else ""};\n{after}\n__r{n} }}', 'R-MAPCOLLECT'))
             n += 1
             i = end
         i += 1
@@ -1014,16 +1032,25 @@ def rw_itermut(fi, args, spec=None):
                 j = match_close(toks, j)
             j += 1
         pat = src[toks[i + 1].start:toks[j].start].strip()
+        if spec is not None:
+            for rule2, args2 in spec.rewrites:
+                if rule2 == 'R-RENAME':
+                    pat = re.sub(r'\b' + re.escape(args2[0]) + r'\b', args2[1], pat)
         chain = norm(toks, j + 1, lp['open']).replace(' ', '')
         enum = chain.endswith('.iter_mut().enumerate()')
-        if not (enum or chain.endswith('.iter_mut()')):
+        valsmut = chain.endswith('.values_mut()')
+        if not (enum or valsmut or chain.endswith('.iter_mut()')):
             raise LostAnchor(f'fn {fi.item.name}: R-ITERMUT: unexpected iterator chain `{chain}`')
         # receiver text: everything before `.iter_mut`
         k = j + 1
-        while not (is_p(toks[k], '.') and is_id(toks[k + 1], 'iter_mut')):
+        while not (is_p(toks[k], '.') and is_id(toks[k + 1], 'values_mut' if valsmut else 'iter_mut')):
             k += 1
         recv = src[toks[j + 1].start:toks[k].start].strip()
         n = a
+        if valsmut:
+            # `for P in X.values_mut()`: the values are reached through the stub accessor X.vc_values_mut() (a &mut Vec)
+            edits.append((toks[lp['start']].start, toks[lp['start']].start, f'let __vm{n} = {recv}.vc_values_mut(); ', 'R-ITERMUT'))
+            recv = f'__vm{n}'
         if enum:
             m = re.match(r'^\(\s*([A-Za-z_][A-Za-z0-9_]*)\s*,\s*(.*)\)$', pat, re.S)
             if not m:
@@ -1164,6 +1191,26 @@ def rw_iterall(fi, args, spec=None):
         i += 1
     if not edits:
         raise LostAnchor(f'fn {fi.item.name}: R-ITERALL did not fire')
+    return edits
+
+
+def rw_intocollect(fi, args, spec=None):
+    """R-INTOCOLLECT: `X.into_iter().collect()` (X an identifier naming a Vec) -> `vc_collect_vec(X)`. Verus has no
+    specification for Iterator::collect; `vc_collect_vec` is a stub carrying the ASSUMED contract of the target
+    collection's FromIterator impl (the target type is inferred from the assignment exactly as for `collect`)."""
+    toks = fi.toks
+    edits = []
+    i = fi.item.body_open + 1
+    while i + 8 < fi.item.body_close:
+        if toks[i].kind == 'id' and not is_p(toks[i - 1], '.') and is_p(toks[i + 1], '.') and is_id(toks[i + 2], 'into_iter') \
+                and is_p(toks[i + 3], '(') and is_p(toks[i + 4], ')') and is_p(toks[i + 5], '.') and is_id(toks[i + 6], 'collect') \
+                and is_p(toks[i + 7], '(') and is_p(toks[i + 8], ')'):
+            edits.append((toks[i].start, toks[i + 8].end, f'vc_collect_vec({toks[i].text})', 'R-INTOCOLLECT'))
+            i += 9
+            continue
+        i += 1
+    if not edits:
+        raise LostAnchor(f'fn {fi.item.name}: R-INTOCOLLECT did not fire')
     return edits
 
 
@@ -1399,6 +1446,7 @@ REWRITES = {
     'R-SIDECHAN': rw_sidechan,
     'R-UPDATE': rw_update,
     'R-ITERALL': rw_iterall,
+    'R-INTOCOLLECT': rw_intocollect,
     'R-FNPARAM': rw_fnparam,
     'R-PARAMNAME': rw_paramname,
     'R-HOISTEND': rw_hoistend,
@@ -1522,6 +1570,27 @@ def emit_fn(gen, sf, item, spec, canary=False, qual='', in_trait=False):
     big = [e for e in edits if isinstance(e[3], str) and e[3] in ('R-CUTTAIL',)]
     for b in big:
         edits = [e for e in edits if e is b or not (b[0] <= e[0] and e[1] <= b[1])]
+    # a rename that falls inside a piece of text another rewrite replaces is applied to the replacement text instead
+    renames = [a for r, a in spec.rewrites if r == 'R-RENAME']
+    if renames:
+        out_edits = []
+        swallowed = set()
+        for b in edits:
+            if b[3] == 'R-RENAME' or b[1] <= b[0] or not isinstance(b[3], str):
+                continue
+            inner = [e for e in edits if e[3] == 'R-RENAME' and b[0] <= e[0] and e[1] <= b[1]]
+            if inner:
+                swallowed.update(id(e) for e in inner)
+        for b in edits:
+            if id(b) in swallowed:
+                continue
+            if b[3] != 'R-RENAME' and b[1] > b[0] and isinstance(b[3], str) and any(b[0] <= e[0] and e[1] <= b[1] for e in edits if id(e) in swallowed):
+                txt = b[2]
+                for a in renames:
+                    txt = re.sub(r'\b' + re.escape(a[0]) + r'\b', a[1], txt)
+                b = (b[0], b[1], txt, b[3])
+            out_edits.append(b)
+        edits = out_edits
     start_line = gen.out.lineno()
     gen.out.nl()
     start_line = gen.out.lineno()
